@@ -26,7 +26,7 @@ ASSUMPTIONS = [
     "allowed differences: STRT/STOP/STEP values, STRT/STOP/STEP and index-curve units, empty value with a unit -> 0",
 ]
 REQUIRED = ["write_read_pairs", "items_compared", "cases_widest_item_has_empty_value", "cases_blank_mnemonic", "cases_duplicate_mnemonic",
-            "version_1.2", "version_2.0", "case_upper", "case_lower", "case_preserve", "other_text_compared", "second_generation_round_trips"]
+            "version_1.2", "version_2.0", "case_upper", "case_lower", "case_preserve", "other_text_compared", "second_generation_round_trips", "cases_header_line_over_256_chars"]
 SOFT_DEADLINE = {"quick": 90, "thorough": 1500}
 LEVEL_TEXT = ("Exploration: every item of every section is compared after a write->read cycle; the generators rotate which item "
               "determines the section's column widths, since one line's correctness depends on all other items of its section.")
@@ -96,10 +96,19 @@ def rotate(rng, items, mode):
         it[2] = ""
     elif mode == "empty_unit":
         it[1] = ""
+    elif mode == "very_long":
+        # absolute lengths around and beyond LAS 1.2's 256-character line: relative-width sweeps over short strings never get there
+        L = rng.choice([120, 200, 236, 244, 250, 256, 270, 320, 400])
+        filler = " ".join(["long text %03d" % i for i in range(40)])
+        it[1] = it[1] or "unit"
+        if rng.random() < 0.5 and isinstance(it[2], str):
+            it[2] = filler[:L].strip()
+        else:
+            it[3] = filler[:L].strip()
     return k
 
 
-MODES = ["none", "widest_mnemonic", "widest_middle", "widest_empty_value", "empty_unit"]
+MODES = ["none", "widest_mnemonic", "widest_middle", "widest_empty_value", "empty_unit", "very_long"]
 
 
 def make_spec(rng, mode=None):
@@ -209,6 +218,8 @@ def run_case(case, ctx):
     rot = spec.get("rotation", {})
     if any(v[0] == "widest_empty_value" for v in rot.values()):
         ctx.count("cases_widest_item_has_empty_value")
+    if max((len(l) for l in text.splitlines()), default=0) > 256:
+        ctx.count("cases_header_line_over_256_chars")
     if any(it[0].strip() == "" for s in ("Well", "Curves", "Parameter", "Version") for it in spec[s]):
         ctx.count("cases_blank_mnemonic")
     if any(len({it[0] for it in spec[s]}) < len(spec[s]) for s in ("Well", "Curves", "Parameter", "Version")):
